@@ -272,6 +272,46 @@ var vforgers = map[string]vforger{
 		}
 		return n > 0
 	}},
+	// borrowed-proof: an entitled voter whose own vote was removed is listed with the sortition
+	// PROOF OF ANOTHER listed voter (byte-identical, so that it has just been verified under its
+	// owner's key) and the seat count that proof's output would give for the borrower's stake;
+	// the signature is the borrower's own. A verifier that binds the proof to the voter's key
+	// counts nothing for it.
+	"borrowed-proof": {name: "borrowed-proof", make: func(fx *fixture, st *cstate, need uint64) bool {
+		var lender *entry
+		for i := range st.es {
+			if st.es[i].legit && st.es[i].v != nil && st.es[i].v.key != nil {
+				lender = &st.es[i]
+				break
+			}
+		}
+		if lender == nil {
+			return false
+		}
+		var got uint64
+		n := 0
+		for _, y := range st.removed {
+			if got >= need {
+				break
+			}
+			if st.used[y] || y == lender.v || y.key == nil || y.rec == nil {
+				continue
+			}
+			// seats the lender's VRF output gives for the borrower's stake
+			_, _, j := ucon.VrfSortition(lender.v.key.VrfSk, fx.ctx.Seed, fx.ctx.Index, stepPrecommit, fx.T, y.rec.Stake, fx.ctx.TotalStake)
+			if j == 0 {
+				continue
+			}
+			sig := y.key.BlsSk.Sign(chainkit.VotePayload(fx.honest.Hash(), fx.N, fx.ctx.Index))
+			e := entry{v: y, sv: ucon.SingleVote{VoterIdx: y.idx, Votes: j, Proof: append([]byte(nil), lender.sv.Proof...)}, sig: sig, w: j}
+			e.legit, e.tag = false, "proof-of-"+lender.v.name()
+			st.used[y] = true
+			st.es = append(st.es, e)
+			got += uint64(j)
+			n++
+		}
+		return n > 0
+	}},
 	"outsider-key": {name: "outsider-key", make: func(fx *fixture, st *cstate, need uint64) bool {
 		var got uint64
 		n := 0
@@ -332,11 +372,11 @@ var vforgers = map[string]vforger{
 
 var vforgerOrder = []string{"duplicate-vote", "same-signer-two-proofs", "other-round-vote", "other-index-vote", "wrong-step-prevote",
 	"wrong-step-nextindex", "wrong-step-certificate", "wrong-block-vote", "voter-index-out-of-range", "voter-index-of-other",
-	"outsider-key", "offline-signer", "house-signer", "inflated-weight", "zero-seat-voter"}
+	"borrowed-proof", "outsider-key", "offline-signer", "house-signer", "inflated-weight", "zero-seat-voter"}
 
 // comboOrder are the vote-level classes combined pairwise.
 var comboOrder = []string{"duplicate-vote", "same-signer-two-proofs", "other-round-vote", "other-index-vote", "wrong-step-prevote",
-	"wrong-block-vote", "voter-index-of-other", "offline-signer", "house-signer", "inflated-weight"}
+	"wrong-block-vote", "voter-index-of-other", "borrowed-proof", "offline-signer", "house-signer", "inflated-weight"}
 
 func (fx *fixture) newState(mode int) *cstate {
 	S, removed := fx.subQuorum(mode)
